@@ -392,3 +392,88 @@ def replay_pubsub(rec):
     if f:
         return {"reproduced": True, "input": f, "observed": f["failure"]}
     return {"reproduced": False, "note": "no failing subscribe/fire history found (1200 random histories with re-entrant listeners)"}
+
+
+# ------------------------------------------------------------------ C01 event list
+def eventlist_search(rounds=3000, seed=0):
+    """Random add/remove/pop/peek/contains/size/clear histories against a sorted-set reference;
+    after every operation the drain order of a copy is compared as well."""
+    from pydsol.core.eventlist import EventListHeap
+    from pydsol.core.simevent import SimEvent
+
+    class T:
+        def m(self):
+            pass
+    tgt = T()
+    for r in range(rounds):
+        rng = random.Random(seed * 7919 + r)
+        el = EventListHeap()
+        ref = []          # list of events
+        pool = []
+        hist = []
+        timekind = rng.choice(["int", "float"])
+
+        def key(e):
+            return (e.time, -e.priority, e.id)
+        for step in range(rng.randrange(2, 14)):
+            op = rng.choice(["add", "add", "add", "remove", "pop", "peek", "contains", "clear1"])
+            if op == "add":
+                t = rng.randrange(0, 6) if timekind == "int" else float(rng.randrange(0, 6)) / 2
+                e = SimEvent(t, tgt, "m", rng.choice([1, 5, 5, 10]))
+                pool.append(e)
+                el.add(e)
+                ref.append(e)
+                hist.append(("add", t, e.priority))
+            elif op == "remove" and pool:
+                e = rng.choice(pool)
+                got = el.remove(e)
+                exp = e in [x for x in ref if x is e]
+                hist.append(("remove", pool.index(e)))
+                if got != exp:
+                    return {"history": hist, "failure": "remove returned %r, expected %r" % (got, exp)}
+                ref = [x for x in ref if x is not e]
+            elif op == "pop":
+                got = el.pop_first()
+                hist.append(("pop",))
+                exp = min(ref, key=key) if ref else None
+                if got is not exp:
+                    return {"history": hist, "failure": "pop_first returned %s, expected %s" % (got, exp)}
+                if exp is not None:
+                    ref = [x for x in ref if x is not exp]
+            elif op == "peek":
+                got = el.peek_first()
+                hist.append(("peek",))
+                exp = min(ref, key=key) if ref else None
+                if got is not exp:
+                    return {"history": hist, "failure": "peek_first returned %s, expected %s" % (got, exp)}
+            elif op == "contains" and pool:
+                e = rng.choice(pool)
+                hist.append(("contains", pool.index(e)))
+                if el.contains(e) != any(x is e for x in ref):
+                    return {"history": hist, "failure": "contains wrong"}
+            elif op == "clear1" and rng.random() < 0.15:
+                el.clear()
+                ref = []
+                hist.append(("clear",))
+            if el.size() != len(ref) or el.is_empty() != (not ref):
+                return {"history": hist, "failure": "size/is_empty wrong: %d vs %d" % (el.size(), len(ref))}
+            # drain a replayed copy
+            import copy
+            cp = EventListHeap()
+            cp._event_list = list(el._event_list)
+            drained = []
+            while not cp.is_empty():
+                drained.append(cp.pop_first())
+            if [key(e) for e in drained] != sorted(key(e) for e in ref):
+                return {"history": hist, "failure": "drain order %s differs from sorted order %s"
+                        % ([key(e)[:2] for e in drained], sorted(key(e)[:2] for e in ref))}
+    return None
+
+
+@replayer(r"(EventListHeap|SimEvent)\..*")
+def replay_eventlist(rec):
+    for seed in range(2):
+        f = eventlist_search(seed=seed)
+        if f:
+            return {"reproduced": True, "input": f, "observed": f["failure"]}
+    return {"reproduced": False, "note": "no failing event-list history found (6000 random histories)"}
